@@ -18,7 +18,9 @@ PROPS = {
  "C08": P("TestC08", "exploration",
           "rapid generates PegNet 2.0.2+ chains (graded/ungraded blocks, SPR sets, transfers, conversions, batches) and adds hostile "
           "entries to the OPR, SPR and TX chains (arbitrary ext-id counts/sizes, mutated valid records, repeats of earlier entries in every "
-          "state, numeric extremes, rates >= 2^63); oracle: the real DBlockSync reaches the tip without panic, log.Fatal or a height failing "
+          "state, numeric extremes, rates >= 2^63); further families: the compressed mainnet timeline through every era with hostile entries, issuance chains, one held multi-transaction batch executing alone "
+          "(incl. the PEG-bank era), and — one case in five — the chains of the property-focused generators (staking, band, bank, admission, PIP-10, grading), because the other checks report a chain that "
+          "does not sync as inconclusive and leave it to this one; oracle: the real DBlockSync reaches the tip without panic, log.Fatal or a height failing "
           "4 times in a row on a healthy fake node and database. Non-trivial = the case contains a hostile entry that passes the first "
           "structural validation of its chain's parser or repeats a valid entry; distinct by hash of (start, kinds, chain summary).",
           quick=(8, 25), thorough=(16, 400)),
